@@ -37,8 +37,25 @@ def div_topo(state, state_dict=None, **kw):
     return [state - half, half]
 
 
+def div_branch(state):
+    """Branch-level divider: the first daughter keeps g1, the second keeps g2."""
+    return [{'g1': state['g1'], 'g2': 0}, {'g1': 0, 'g2': state['g2']}]
+
+
+def up_branch_acc(cur, u):
+    out = dict(cur)
+    for k, v in u.items():
+        out[k] = out[k] + v
+    return out
+
+
+UPDATERS['branch_acc'] = up_branch_acc
+
+
 def register():
     from vivarium.core.registry import divider_registry
+    if divider_registry.access('verif_branch') is None:
+        divider_registry.register('verif_branch', div_branch)
     if divider_registry.access('verif_ratio') is None:
         divider_registry.register('verif_ratio', div_ratio)
 
@@ -68,6 +85,7 @@ VAR_MENU = {
     'd':   {'default': {'k0': {'x': 1}}, 'divider': 'set', 'updater': 'dict_value'},
     'lst': {'default': [1, 2], 'divider': 'set'},
     'q':   {'default': {'__q__': [8.0, 'mg']}, 'divider': 'split'},   # a quantity: exact halves
+    'grp': {'default': {'g1': 4, 'g2': 6}, 'divider': 'verif_branch', 'branch': True, 'updater': 'branch_acc'},
     'nd':  {'default': 3},                      # no divider declared: the default (set)
     't':   {'default': 0, 'divider': 'set'},    # written by the tally step
 }
@@ -76,7 +94,7 @@ VAR_MENU = {
 def _state_for(r, cellvars, p=50, extreme=False):
     st = {}
     for v, a in cellvars.items():
-        if v in ('t', 'd', 'sd', 'lst'):
+        if v in ('t', 'd', 'sd', 'lst', 'grp'):
             continue
         if r.chance(p):
             if v == 'q':
@@ -109,7 +127,7 @@ def gen_case(seed):
     tsmax = r.pick([4, 8, 16])
 
     def proc_spec(name):
-        sp = {'name': name, 'declares': ['n'] + [v for v in names if v in ('f', 'b', 'r', 'tp', 'z', 'q') and r.chance(50)]}
+        sp = {'name': name, 'declares': ['n'] + [v for v in names if v in ('f', 'b', 'r', 'tp', 'z', 'q', 'grp') and r.chance(50)]}
         m = r.below(3)
         if m == 0:
             sp['ts'] = {'mode': 'const', 'vals': [r.rint(1, tsmax)], 'unit': UNIT}
@@ -121,7 +139,9 @@ def gen_case(seed):
             sp['cond'] = {'mode': 'poll', 'vals': [r.below(2) for _ in range(5)]}
         sp['writes'] = []
         for v in sp['declares']:
-            if v == 'q':
+            if v == 'grp':
+                sp['writes'].append([v, [{r.pick(['g1', 'g2']): r.rint(1, 9)} for _ in range(3)]])
+            elif v == 'q':
                 sp['writes'].append([v, [{'__q__': [r.rint(1, 16) / 4, 'mg']} for _ in range(3)]])
             elif v == 'f':
                 sp['writes'].append([v, [r.rint(1, 40) / 8 for _ in range(3)]])
@@ -763,6 +783,8 @@ def law(v, a, m, shares, explicit, cellvars, mother_vars):
         want = [0, 0]
     elif name == 'set_value':
         want = [d['config']['value']] * 2
+    elif name == 'verif_branch':
+        want = div_branch(m)
     elif name == 'verif_ratio':
         want = div_ratio(m)
     elif name == 'verif_topo':
